@@ -34,6 +34,8 @@ type World struct {
 	mutFields      map[string]bool
 	mutFieldsDone  bool
 	mu             sync.Mutex
+	importAlias    map[string]map[string]string // package path -> local import name -> imported path
+	freshCallee    map[*ssa.Function]bool
 }
 
 func LoadWorld(repo string, patterns []string, specDir string) (*World, error) {
@@ -55,6 +57,21 @@ func LoadWorld(repo string, patterns []string, specDir string) (*World, error) {
 				fmt.Fprintf(os.Stderr, "load error: %s: %v\n", p.PkgPath, e)
 				nerr++
 			}
+		}
+		if p.Types != nil && strings.HasPrefix(p.PkgPath, modulePath) {
+			m := map[string]string{}
+			for _, f := range p.Syntax {
+				for _, imp := range f.Imports {
+					path, _ := strconv.Unquote(imp.Path.Value)
+					if imp.Name != nil && imp.Name.Name != "_" && imp.Name.Name != "." {
+						m[imp.Name.Name] = path
+					}
+				}
+			}
+			if w.importAlias == nil {
+				w.importAlias = map[string]map[string]string{}
+			}
+			w.importAlias[p.PkgPath] = m
 		}
 		if p.Types != nil {
 			w.pkgByPath[p.PkgPath] = p.Types
@@ -116,6 +133,37 @@ func (w *World) lookupObj(pkg, name string) types.Object {
 
 // lookupPkg resolves a package qualifier used inside a contract of package `from`.
 func (w *World) lookupPkg(from, name string) *types.Package {
+	if m := w.importAlias[from]; m != nil {
+		if path, ok := m[name]; ok {
+			if p := w.pkgByPath[path]; p != nil {
+				return p
+			}
+		}
+	}
+	if p := w.pkgByPath[from]; p != nil {
+		// an import without alias whose package name matches; when several match, prefer the one
+		// that is not also imported under an alias
+		var cands []*types.Package
+		for _, imp := range p.Imports() {
+			if imp.Name() == name {
+				cands = append(cands, imp)
+			}
+		}
+		if len(cands) > 1 {
+			aliased := map[string]bool{}
+			for _, path := range w.importAlias[from] {
+				aliased[path] = true
+			}
+			for _, c := range cands {
+				if !aliased[c.Path()] {
+					return c
+				}
+			}
+		}
+		if len(cands) > 0 {
+			return cands[0]
+		}
+	}
 	if p := w.pkgByPath[from]; p != nil {
 		for _, imp := range p.Imports() {
 			if imp.Name() == name {
@@ -357,7 +405,7 @@ func (w *World) ambientGhost(comp string) bool {
 // never stored to outside the construction of a fresh object (a local Alloc of the storing
 // function). Such fields keep their value across every call (havoc skips them).
 func (w *World) immutableFieldComp(comp string) bool {
-	if !strings.HasPrefix(comp, "F:"+modulePath) {
+	if !strings.HasPrefix(comp, "F:"+modulePath) && !strings.HasPrefix(comp, "C:") {
 		return false
 	}
 	w.mu.Lock()
@@ -376,6 +424,9 @@ func (w *World) immutableFieldComp(comp string) bool {
 		rootIsAlloc = func(v ssa.Value) bool {
 			switch x := v.(type) {
 			case *ssa.Alloc:
+				return true
+			case *ssa.FreeVar:
+				// a captured variable of an enclosing function (its own allocation)
 				return true
 			case *ssa.FieldAddr:
 				return rootIsAlloc(x.X)
@@ -408,7 +459,12 @@ func (w *World) immutableFieldComp(comp string) bool {
 					if rootIsAlloc(st.Addr) {
 						continue
 					}
+					if w.initOnlyStore(fn, st) {
+						continue
+					}
 					switch a := st.Addr.(type) {
+					case *ssa.IndexAddr, *ssa.Global:
+						_ = a
 					case *ssa.FieldAddr:
 						// every struct on the address chain has this field path written
 						cur := a
@@ -425,6 +481,11 @@ func (w *World) immutableFieldComp(comp string) bool {
 					default:
 						if pt, ok := st.Addr.Type().Underlying().(*types.Pointer); ok {
 							markAll(pt.Elem())
+							// a store through a plain pointer value: the cell heap of that type is mutable
+							w.mutFields["C:"+typeKey(pt.Elem())] = true
+							if os.Getenv("GOVC_DEBUG_MUT") != "" {
+								fmt.Fprintf(os.Stderr, "mutable cell %s: store in %s at %s\n", typeKey(pt.Elem()), fn, w.fset.Position(st.Pos()))
+							}
 						}
 					}
 				}
@@ -432,4 +493,62 @@ func (w *World) immutableFieldComp(comp string) bool {
 		}
 	}
 	return !w.mutFields[comp]
+}
+
+// initOnlyStore: the store writes a declared init-only field of the function's own receiver, and
+// the function is only ever called on a freshly allocated receiver.
+func (w *World) initOnlyStore(fn *ssa.Function, st *ssa.Store) bool {
+	fields, ok := w.ct.InitOnly[fnKey(fn)]
+	if !ok || len(fn.Params) == 0 {
+		return false
+	}
+	fa, ok := st.Addr.(*ssa.FieldAddr)
+	if !ok || fa.X != fn.Params[0] {
+		return false
+	}
+	pt := fa.X.Type().Underlying().(*types.Pointer).Elem()
+	name := pt.Underlying().(*types.Struct).Field(fa.Field).Name()
+	found := false
+	for _, f := range fields {
+		if f == name {
+			found = true
+		}
+	}
+	if !found {
+		return false
+	}
+	return w.onlyCalledOnFresh(fn)
+}
+
+func (w *World) onlyCalledOnFresh(fn *ssa.Function) bool {
+	if w.freshCallee == nil {
+		w.freshCallee = map[*ssa.Function]bool{}
+	}
+	if v, ok := w.freshCallee[fn]; ok {
+		return v
+	}
+	okAll := true
+	n := 0
+	for caller := range w.allFuncs {
+		for _, b := range caller.Blocks {
+			for _, in := range b.Instrs {
+				for _, op := range in.Operands(nil) {
+					if *op != ssa.Value(fn) {
+						continue
+					}
+					c, isCall := in.(*ssa.Call)
+					if !isCall || c.Call.Value != ssa.Value(fn) || len(c.Call.Args) == 0 {
+						okAll = false // function value escapes or is deferred/go'ed
+						continue
+					}
+					n++
+					if _, isAlloc := c.Call.Args[0].(*ssa.Alloc); !isAlloc {
+						okAll = false
+					}
+				}
+			}
+		}
+	}
+	w.freshCallee[fn] = okAll && n > 0
+	return okAll && n > 0
 }
